@@ -33,7 +33,7 @@ TRUSTED = ['lean/NixModel/OpenMode.lean: model of File::open / FileHDF5::FileHDF
 ASSUMPTIONS = ['paths the process may not read are not distinguished from missing ones (the harness runs with full access)',
                'a zero-byte file opened with H5F_ACC_RDWR is initialised by HDF5 (observed; modelled)']
 
-MUTATORS = {'mk', 'del', 'link', 'unlink', 'single', 'set', 'adim', 'sdim', 'ddims', 'da_setext', 'da_fill', 'da_fills', 'da_append', 'da_appends', 'pvalues', 'pset', 'mkpv'}
+MUTATORS = {'mk', 'del', 'link', 'setlinks', 'unlink', 'single', 'set', 'adim', 'sdim', 'ddims', 'da_setext', 'da_fill', 'da_fills', 'da_append', 'da_appends', 'pvalues', 'pset', 'mkpv'}
 COMPR = ['auto', 'auto', 'deflate', 'none']
 
 class MWorld(World):
